@@ -328,6 +328,32 @@ func init() {
 			count("reordered_runs")
 		}
 		checkArgs("reordered runs")
+		// (b') the same calls in FRESH processes, in the generated order, reversed and shuffled.  The generators above have
+		// already called the library (validity filters), so this process has a history before the first call of the
+		// workload; a child process executes nothing but the calls it is given, so a result that depends on earlier calls
+		// (a cache primed by another spelling, say) differs between the orders.
+		if exe, err := os.Executable(); err == nil {
+			ordersF := [][]int{make([]int, len(w)), make([]int, len(w)), rng.Perm(len(w))}
+			for i := range w {
+				ordersF[0][i] = i
+				ordersF[1][i] = len(w) - 1 - i
+			}
+			for o, perm := range ordersF {
+				got, err := runChild(exe, w, perm)
+				if err != nil {
+					res.Notes = append(res.Notes, "fresh-process run failed: "+err.Error())
+					break
+				}
+				count("fresh_process_runs")
+				res.Evaluations += len(perm)
+				for k, i := range perm {
+					if got[k] != base[i] {
+						fail(failure{Stream: "oracle", What: "the result of a call in a fresh process differs with the calls made before it: " + w[i].String(), Case: &kase{Expr: w[i].expr, Allowed: w[i].list, Extra: map[string]string{"fn": itoa(w[i].fn), "fresh_order": itoa(o), "position": itoa(k)}}, Impl: show(got[k]), Expected: show(base[i])})
+						break
+					}
+				}
+			}
+		}
 		// (c) concurrency over shared argument slices
 		g := scale(32, 64)
 		for _, procs := range []int{runtime.NumCPU(), 2} {
@@ -382,6 +408,74 @@ func init() {
 	replays["C13"] = func(k *kase) *failure {
 		return &failure{Stream: "oracle", What: "history / schedule dependent finding: re-run the check (the replay file records the call)", Case: k}
 	}
+}
+
+// runChild executes the calls w[perm[0]], w[perm[1]], ... in a fresh process and returns their results in that order
+func runChild(exe string, w []*call, perm []int) ([]string, error) {
+	type wire struct {
+		Fn   int      `json:"fn"`
+		Expr string   `json:"expr"` // hex
+		List []string `json:"list"` // hex
+		Nil  bool     `json:"nil"`
+	}
+	calls := make([]wire, len(perm))
+	for k, i := range perm {
+		c := w[i]
+		l := make([]string, len(c.list))
+		for j, x := range c.list {
+			l[j] = hx(x)
+		}
+		calls[k] = wire{Fn: c.fn, Expr: hx(c.expr), List: l, Nil: c.list == nil}
+	}
+	in, _ := json.Marshal(calls)
+	cmd := exec.Command(exe, "-exec")
+	cmd.Stdin = bytes.NewReader(in)
+	var out bytes.Buffer
+	cmd.Stdout = &out
+	if err := cmd.Run(); err != nil {
+		return nil, err
+	}
+	var resS []string
+	if err := json.Unmarshal(out.Bytes(), &resS); err != nil {
+		return nil, err
+	}
+	if len(resS) != len(perm) {
+		return nil, fmt.Errorf("child returned %d results for %d calls", len(resS), len(perm))
+	}
+	for i := range resS {
+		resS[i] = unhx(resS[i])
+	}
+	return resS, nil
+}
+
+// execChild: the child side of runChild (no generator, no table access: nothing but the calls)
+func execChild() {
+	type wire struct {
+		Fn   int      `json:"fn"`
+		Expr string   `json:"expr"`
+		List []string `json:"list"`
+		Nil  bool     `json:"nil"`
+	}
+	var calls []wire
+	raw, _ := io.ReadAll(os.Stdin)
+	if err := json.Unmarshal(raw, &calls); err != nil {
+		fmt.Fprintln(os.Stderr, err)
+		os.Exit(2)
+	}
+	out := make([]string, len(calls))
+	for k, c := range calls {
+		var l []string
+		if !c.Nil {
+			l = make([]string, len(c.List))
+			for j, x := range c.List {
+				l[j] = unhx(x)
+			}
+		}
+		cc := &call{fn: c.Fn, expr: unhx(c.Expr), list: l}
+		out[k] = hx(cc.run())
+	}
+	b, _ := json.Marshal(out)
+	os.Stdout.Write(b)
 }
 
 // ---------------------------------------------------------------- C14
